@@ -384,7 +384,7 @@ fn parse_date_str_to_timestamps(date_str: &str) -> Option<i64> {
         // If no year input.
         let year = captures
             .get(2)
-            .map_or(now.year(), |m| m.as_str().parse().unwrap());
+            .map_or(Some(now.year()), |m| m.as_str().parse().ok())?;
         // If the user does not enter a specific time, it will be filled with 0
         let time_str = captures.get(3).map_or("00:00:00", |m| m.as_str());
         let date_time_str = format!("{month_day}, {year} {time_str}");
